@@ -4,6 +4,14 @@ import json, os, subprocess
 V = os.path.dirname(os.path.dirname(os.path.abspath(__file__)))
 
 CHECKS = {
+ "C11": dict(level="exploration", design="§3 C11",
+   text="Differential monitor on the public API: for 60 k (quick) / 3 M (thorough) generated (rule list, word list) pairs, the result of run on the list is compared with run on every line alone (length, order, content), on a permutation / sub-list, and for multi-word lines with the single-space join of the per-word results; when lines fail, the list must fail with the error kind of the first failing line (parse-phase failures first). About a third of the generated lists contain failing lines.",
+   note="public API only; error texts are never compared, only kinds; lists in which rule-syntax and word-syntax failures are mixed are counted, not judged",
+   technique="metamorphic (list vs per-line, permutation) runtime monitor over generated workloads"),
+ "C16": dict(level="exploration", design="§3 C16",
+   text="Sequence-equation monitor on the public API: trace_changes / get_trace_string on 50 k (quick) / 2 M (thorough) generated (rule groups, phrase) pairs are checked against plain runs of every prefix G0..Gi: indices strictly increasing, every reported state equals the prefix run, every changing group is reported, the last state equals run(G), the printed trace shows the same sequence with the groups' names, and both fail when a rule errors.",
+   note="public API plus render_word for Change.after; a reported group whose rendering equals the previous one is counted, not judged (the renderer is not injective)",
+   technique="trace-vs-prefix-run differential monitor over generated workloads"),
  "C02": dict(level="exploration", design="§3 C02",
    text="Isolation monitor: every call of run / trace_changes / get_trace_string runs in a worker process under catch_unwind and a step budget (tick hook at 115 loop heads) proportional to |words| x |rules|; the worker publishes the index of the case it is about to run so a case that kills the process is identified and the shard restarted (conservation: assigned = completed + killed). Workload = full-grammar rules, token mutants of the 470 harvested rules, numeric extremes, character noise for rules, words and alias lines, degenerate words; 400 k cases x 2 build profiles (checked = overflow + debug assertions; release) in the quick tier, 12 M x 2 in thorough. Budget exhaustion is retried at 2x (slow = inconclusive) and, for rules with ellipses/optionals, at 64x (superlinear, reported separately from hang).",
    note="step budget constants calibrated on the unchanged tree (largest observed ticks/budget ratio is reported); wall-clock only as a watchdog whose firing is inconclusive; panics are keyed by (innermost function of the code under test, message class) from the symbolised backtrace",
